@@ -16,8 +16,19 @@ open ShellOp ShellOp.ShellFw
 has the modelled statement order; the candidate names are produced without pathname expansion
 (`set -f`), which is what lets the model treat names as opaque strings. -/
 theorem table_fresh : Facts.c19Stale = false ∧ Facts.c19NoGlob = true ∧
-    Facts.c19RunSteps = ["config-branch", "for-each-index", "select-index", "select-binding",
+    Facts.c19RunSteps = ["config-branch", "length", "for-each-index", "select-index", "select-binding",
       "candidates", "append-fallback", "run-first", "done"] := by decide
+
+/-- How a context becomes "current", and what `hook::run` adds to the environment of the commands
+it starts: the index and the binding name, nothing whose size grows with the context (one
+environment string is limited to 128 KiB by `execve`; an exported context would make every `jq` of
+the dispatch fail for a large one). `context::jq` slices the binding-context *file* at the exported
+index on every call; `c19Stale = false` (above) says `hook::run` has no other statement. -/
+theorem current_context_from_file :
+    Facts.c19RunExports = ["BINDING_CONTEXT_CURRENT_INDEX", "BINDING_CONTEXT_CURRENT_BINDING"] ∧
+    Facts.c19GlobalJqBody = ["jq \"$@\" ${BINDING_CONTEXT_PATH}"] ∧
+    Facts.c19CtxJqBody = ["context::global::jq '.['\"${BINDING_CONTEXT_CURRENT_INDEX}\"']' | jq \"$@\""] := by
+  decide
 
 theorem lookup_type (t : String) :
     Facts.c19TypeTable.lookup t =
@@ -251,6 +262,99 @@ theorem check_determines (env : Env) (ctxs : List Ctx) (hw : ∀ c ∈ ctxs, Spe
         · simp only [hfail, Bool.false_eq_true, if_false] at hrest
           have := ih' rest hrest
           simp [hfail, this.1, ← this.2]
+
+/-! ## The standard input shared by the framework and the handlers -/
+
+/-- **C19.3** Whatever is on the hook's standard input and whatever the handlers do with it (nothing,
+`read` a line, `cat` everything), the run dispatches exactly as `runFrom` does: the loop of
+`hook::run` does not take its indices (or anything else) from the stream the handlers can consume. -/
+theorem dispatch_ignores_stdin (env : Env) (ctxs : List Ctx) (stdin : List String) (i : Nat) :
+    (runFromIO env i stdin ctxs).1 = runFrom env i ctxs := by
+  induction ctxs generalizing i stdin with
+  | nil => simp [runFromIO, runFrom]
+  | cons c cs ih =>
+    simp only [runFromIO, runFrom]
+    cases handlers c with
+    | none => rfl
+    | some hs =>
+      dsimp only
+      cases hs.find? env.defined with
+      | none => rfl
+      | some h =>
+        dsimp only
+        by_cases hfail : env.fails i h = true
+        · simp [hfail]
+        · simp [hfail, ih]
+
+/-- **C19.2 + C19.3** The property predicate holds for the run with the standard input threaded
+through, for every input stream and every way the handlers use it. -/
+theorem dispatch_one_io (env : Env) (args : List String) (stdin : List String) (ctxs : List Ctx)
+    (hw : ∀ c ∈ ctxs, Spec.wellFormed c) :
+    Spec.holds env args ctxs (hookRunIO env args stdin ctxs).1 = true := by
+  have h := dispatch_one env args ctxs hw
+  unfold hookRunIO
+  unfold hookRun at h
+  by_cases ha : (args.head? == some Facts.c19ConfigFlag) = true
+  · simpa [ha] using h
+  · simpa [ha, dispatch_ignores_stdin] using h
+
+/-- One stdin observation per invocation, and the handlers together see a prefix of the hook's own
+standard input, in order: the framework itself consumes none of it and feeds nothing else to them. -/
+theorem handlers_share_hook_stdin (env : Env) (ctxs : List Ctx) (stdin : List String) (i : Nat) :
+    (runFromIO env i stdin ctxs).2.length = (runFromIO env i stdin ctxs).1.log.length ∧
+    ((runFromIO env i stdin ctxs).2.filterMap id).flatten <+: stdin := by
+  induction ctxs generalizing i stdin with
+  | nil => simp [runFromIO]
+  | cons c cs ih =>
+    simp only [runFromIO]
+    cases handlers c with
+    | none => simp
+    | some hs =>
+      dsimp only
+      cases hs.find? env.defined with
+      | none => simp
+      | some h =>
+        dsimp only
+        have hcons : ∀ (u : StdinUse) (s : List String),
+            ((consume u s).1.getD []) ++ (consume u s).2 = s := by
+          intro u s; cases u <;> cases s <;> simp [consume]
+        have hc := hcons (env.reads h) stdin
+        have ih' := ih (consume (env.reads h) stdin).2 (i + 1)
+        by_cases hfail : env.fails i h = true
+        · simp only [hfail, if_true, List.length_cons, List.length_nil, true_and]
+          cases hs1 : (consume (env.reads h) stdin).1 with
+          | none => simp
+          | some l =>
+            rw [hs1] at hc
+            simp only [List.filterMap_cons, id, List.filterMap_nil, List.flatten_cons, List.flatten_nil,
+              List.append_nil]
+            exact ⟨_, hc⟩
+        · simp only [hfail, Bool.false_eq_true, if_false, List.length_cons, ih'.1, true_and]
+          obtain ⟨t, ht⟩ := ih'.2
+          cases hs1 : (consume (env.reads h) stdin).1 with
+          | none =>
+            rw [hs1] at hc
+            simp only [List.filterMap_cons, id]
+            refine ⟨t, ?_⟩
+            rw [ht]; simpa using hc
+          | some l =>
+            rw [hs1] at hc
+            simp only [List.filterMap_cons, id, List.flatten_cons]
+            refine ⟨t, ?_⟩
+            rw [List.append_assoc, ht]; simpa using hc
+
+/-! Non-vacuity: the first handler reads everything there is on the standard input, the second one
+line; all three contexts are dispatched, to the handlers the property names. -/
+example :
+    let env : Env := { defined := fun n => n == "__on_kubernetes::pods" || n == "__main__",
+                       fails := fun _ _ => false,
+                       reads := fun n => if n == "__main__" then .line else .all }
+    hookRunIO env [] ["1", "2"] [{ binding := some "pods", type := some "Synchronization" },
+                                 { binding := some "cron", type := some "Schedule" },
+                                 { binding := some "pods", type := some "Event", watchEvent := some "Added" }]
+      = ({ log := [(0, "__on_kubernetes::pods"), (1, "__main__"), (2, "__on_kubernetes::pods")],
+           config := false, ok := true }, [some ["1", "2"], some [], some []]) := by
+  decide
 
 /-! Non-vacuity: three contexts, the second handler fails — two invocations, non-zero status. -/
 example :
